@@ -1630,6 +1630,10 @@ class Engine(Executor):
 
     def loop_by_invariant_tail(self, stmt, it, st, key, spec, invs, body_ens, names, body_attrs, tag, count, elem):
         entry_env = dict(st.env)
+        if any(isinstance(x, (ast.Yield, ast.YieldFrom)) for b_ in stmt.body for x in ast.walk(b_)):
+            self.assumptions.add("A-ITER: a loop runs over its iterable as it is at loop entry (count and elements fixed); a consumer that "
+                                 "changes the container while the generator is suspended inside the loop is not modelled (exact where the "
+                                 "source iterates list(...) snapshots; otherwise covered by the bounded stand-in only)")
         # loop-entry ghosts: values named in invariants, evaluated once in the state before the first iteration
         loop_ghost = {}
         for gname, gexpr in (spec.get("ghost") or {}).items():
